@@ -151,9 +151,11 @@ class Facts:
         # parameters are named positionally from the reviewed tree (tables/params.json): renaming a parameter in /repo
         # leaves every rendered condition unchanged; a changed arity keeps the current names
         self.renamed = {}
+        self.reviewed_fns = None
         ptab = os.path.join(os.path.dirname(os.path.dirname(os.path.abspath(__file__))), 'tables', 'params.json')
         if os.path.exists(ptab) and not os.environ.get('VERIF_NO_PARAM_TABLE'):
             frozen = json.load(open(ptab))['params']
+            self.reviewed_fns = {crate: set(fns) for crate, fns in frozen.items()}
             for crate, fns in self.crates.items():
                 for path, fn in fns.items():
                     names = frozen.get(crate, {}).get(path)
@@ -325,7 +327,7 @@ class Explorer:
     Switches on enum discriminants / booleans fork; `?` follows the Continue arm only unless
     follow_break is set; loops are cut after `max_visits` visits of a block per path."""
 
-    def __init__(self, fn, follow_break=False, max_visits=1, max_paths=4000, transparent=is_transparent, on_call=None, keep_site=False, facts=None, havoc=False):
+    def __init__(self, fn, follow_break=False, max_visits=1, max_paths=4000, transparent=is_transparent, on_call=None, keep_site=False, facts=None, havoc=False, inline_new=True):
         self.fn = fn
         self.fx = facts
         self.havoc = havoc
@@ -336,6 +338,47 @@ class Explorer:
         self.transparent = transparent
         self.on_call = on_call
         self.keep_site = keep_site
+        self.inline_new = inline_new
+
+    # -- helpers introduced after the review (extract-method refactors) are inlined
+    depth = 0
+
+    def _new_helper(self, f):
+        fx = self.fx
+        if fx is None or not self.inline_new or self.depth >= 3 or f.get('k') != 'const' or not f.get('def'):
+            return None
+        known = getattr(fx, 'reviewed_fns', None)
+        if not known:
+            return None
+        pf = fx.crates[self.fn.crate].get(f['def'])
+        if pf is None or pf.macro or '{closure' in pf.path or '::promoted[' in pf.path or pf.kind not in ('Fn', 'AssocFn'):
+            return None
+        if pf.path in known.get(self.fn.crate, ()) or pf.path == self.fn.path:
+            return None
+        return pf
+
+    def _inline(self, p, t, pf, a, work, results):
+        sub = Explorer(pf, follow_break=self.follow_break, max_visits=self.max_visits, max_paths=64, transparent=self.transparent,
+                       on_call=self.on_call, keep_site=self.keep_site, facts=self.fx, havoc=self.havoc)
+        sub.depth = self.depth + 1
+        res = sub.run(args=list(a))
+        if not res or len(res) > 16 or any(kind not in ('RET', 'DIVERGE') for kind, _, _ in res):
+            return False
+        d = t['dest']
+        for kind, sp, sret in res:
+            q = p.fork(t['target'])
+            q.conds = p.conds + sp.conds
+            q.events = p.events + sp.events
+            q.havocked |= sp.havocked
+            if kind == 'DIVERGE' or t['target'] < 0:
+                results.append(('DIVERGE', q, sret if kind == 'DIVERGE' else pf.path))
+                continue
+            if not d['p']:
+                q.env[d['l']] = sret
+            else:
+                q.env[(d['l'], tuple(d['p']))] = sret
+            work.append(q)
+        return True
 
     # -- value helpers
     def place_val(self, env, pl):
@@ -398,7 +441,10 @@ class Explorer:
             return self.place_val(env, o['pl'])
         if k == 'const':
             if o.get('def'):
-                return ('fn', short(o['def']), o.get('inst', ''))
+                d = short(o['def'])
+                if d == '<T as std::convert::Into<U>>::into':
+                    d = 'std::convert::From::from'   # `map_err(Into::into)` = `map_err(From::from)` (blanket impl)
+                return ('fn', d, o.get('inst', ''))
             val = o['v'][6:] if o['v'].startswith('const ') else o['v']
             if self.fx is not None and ('::' in val):
                 pf = self.fx.crates[self.fn.crate].get(val)
@@ -529,6 +575,8 @@ class Explorer:
                         val = ('residual', a[0])
                     elif self.transparent(callee) and a:
                         val = a[0]
+                    elif self._new_helper(f) is not None and self._inline(p, t, self._new_helper(f), a, work, results):
+                        break
                     else:
                         site = (p.bb, t.get('line', 0)) if (self.keep_site or callee == 'std::boxed::Box::new_uninit') else None
                         val = ('call', callee, a, norm_inst(f.get('inst', '')), site)
@@ -540,7 +588,17 @@ class Explorer:
                                     if basev is not None and any(x == a[0] for x in walk(basev)):
                                         val = ('agg', 'vec', stored[2])
                                         break
-                        p.events.append(('call', callee, a, t.get('line', 0), p.bb, len(p.conds)))
+                        # effectful = takes a `&mut` argument or returns unit; other calls only produce a value
+                        eff = False
+                        for x in t['args']:
+                            if x.get('k') in ('move', 'copy'):
+                                lt = fn.locals[x['pl']['l']] if x['pl']['l'] < len(fn.locals) else ''
+                                if not x['pl']['p'] and lt.startswith('&mut'):
+                                    eff = True
+                        dl = t['dest']['l']
+                        if not t['dest']['p'] and dl < len(fn.locals) and fn.locals[dl] in ('()', '!'):
+                            eff = True
+                        p.events.append(('call', callee, a, t.get('line', 0), p.bb, len(p.conds), eff))
                         if self.on_call:
                             r = self.on_call(self, p, callee, a, t)
                             if r is not None:
@@ -595,6 +653,10 @@ class Explorer:
                             if v == 'other':
                                 rest = [n for a, n in d[3] if int(a) not in tg]
                                 label = '|'.join(rest) if rest else 'other'
+                                if len(rest) > 8 and len(rest) > len(tg):
+                                    # large enums (grammar rules, jets): name the complement by what it excludes, so that a
+                                    # new variant elsewhere does not change the label
+                                    label = '!' + '|'.join(names.get(str(v2), str(v2)) for v2 in tg)
                             else:
                                 label = names.get(str(v), str(v))
                             what = d[1]
